@@ -66,6 +66,9 @@ def hook_present():
         return False
 
 
+WORLD_PASS = {"stats": {}}
+
+
 def plan(prop, tier, seed, h3):
     runs = []
     for f in sorted(glob.glob(os.path.join(vlib.VERIF, "corpus", "join", "*.ops"))):
@@ -367,6 +370,12 @@ def check(prop, tier, seed, t0):
                 rr["retried_after_timeout"] = True
                 results[i] = rr
         violations += report_failures(prop, tier, seed, results)
+        if prop == "C06":
+            # look-ups by entity through the lending join of ONE storage (`lget`, `lgetmut`, `ldrain2`, `lentry2` of the world
+            # domain): the driver's C06 monitor of that domain
+            import dom_world
+            v, WORLD_PASS["stats"] = dom_world.mon_pass("C06", tier, seed)
+            violations += v
     stats = {}
     for r in results:
         for k, v in r["stats"].items():
@@ -412,6 +421,7 @@ def check(prop, tier, seed, t0):
         "h3_hook": "present" if h3 else "absent",
         "h3_note": h3_note,
         "runs": [f"{r['label']} ({r['wall']:.1f}s)" for r in results],
+        "world_domain_pass": WORLD_PASS["stats"],
         "samples": samples,
         "exhaustive": False,
     }
@@ -428,6 +438,9 @@ def check(prop, tier, seed, t0):
 
 
 def replay(prop, path):
+    if "# domain world" in open(path).read():
+        import dom_world
+        return dom_world.replay(prop, path)
     ok, blog = vlib.build_harness([BIN])
     if not ok:
         print(blog); return 2
